@@ -40,12 +40,15 @@ THEOREMS = [
     "Stab.props.C07.C07_failed_write_changes_nothing",
     "Stab.props.C07.C07_phase_guard",
     "Stab.props.C07.C07_frame",
+    "Stab.props.C07.C07_task_cas",
     "Stab.props.C07.C07_linearizable",
     "Stab.props.C07.C07_one_success_per_version",
     "Stab.props.C07.C07_open_txn_is_empty",
     "Stab.props.C07.C07_retry_fresh",
     "Stab.props.C07.C07_versions_monotone",
     "Stab.props.C07.C07_bounded_retry",
+    "Stab.props.C07.C07_not_guaranteed_plain_store_is_not_atomic_on_failure",
+    "Stab.props.C07.C07_not_guaranteed_progress",
 ]
 TRUSTED_BASE = [
     "SQLite: a write transaction (first DML .. COMMIT) is atomic and excludes other writers; readers see only committed "
@@ -330,6 +333,8 @@ def real_run(spec: dict, chooser, base: Path) -> dict:
                         ph = w["phase"]
                         phase = None if ph[0] == "none" else (stage.status.name if ph[0] == "snap" else names[ph[1]])
                         _apply_mod(stage, w["mod"])
+                        if w.get("poison") and stage.tasks:
+                            stage.tasks[0].version += 5      # a snapshot retrieve_stage can not produce (Occ.corrupt)
                         if w["variant"] == "plain":
                             store.store_stage(stage, expected_phase=phase)
                         else:
@@ -400,3 +405,512 @@ def real_run(spec: dict, chooser, base: Path) -> dict:
 
 
 real_run.counter = 0
+
+
+# ---------------------------------------------------------------------------------------------------------
+# exploring schedules
+# ---------------------------------------------------------------------------------------------------------
+
+def _replay_chooser(choices):
+    def ch(cand, pos):
+        if pos < len(choices) and choices[pos] in cand:
+            return choices[pos]
+        return cand[0]
+    return ch
+
+
+def explore_all(spec: dict, base: Path, limit: int, root=None, branch_from: int = 0, branch_until: int | None = None):
+    """Stateless DFS over every maximal schedule of the real threads (each run re-executes from scratch).
+    `root` fixes the first choices; alternatives are explored at positions branch_from <= pos < branch_until."""
+    runs, stack, complete = [], [list(root or [])], True
+    while stack:
+        if len(runs) >= limit:
+            complete = False
+            break
+        prefix = stack.pop()
+        r = real_run(spec, _replay_chooser(prefix), base)
+        runs.append(r)
+        choices = [t[0] for t in r["trace"]]
+        hi = len(r["enabled"]) if branch_until is None else min(branch_until, len(r["enabled"]))
+        for pos in range(max(len(prefix), branch_from), hi):
+            for alt in r["enabled"][pos]:
+                if alt != choices[pos]:
+                    stack.append(choices[:pos] + [alt])
+    return runs, complete
+
+
+def explore_random(spec: dict, base: Path, count: int, seed: int) -> list[dict]:
+    import random
+    rng = random.Random(seed)
+    runs = []
+    for k in range(count):
+        mode = k % 3
+        if mode == 0:
+            ch = lambda cand, pos: rng.choice(cand)                         # uniform
+        elif mode == 1:
+            order = list(range(len(spec["workers"])))
+            rng.shuffle(order)
+            sticky = {"cur": order[0]}
+
+            def ch(cand, pos, sticky=sticky):                                 # few preemptions: stay on a thread, switch rarely
+                if sticky["cur"] not in cand or rng.random() < 0.25:
+                    sticky["cur"] = rng.choice(cand)
+                return sticky["cur"]
+        else:
+            ch = lambda cand, pos: cand[pos % len(cand)]                     # round robin: maximal interleaving of reads before writes
+        runs.append(real_run(spec, ch, base))
+    return runs
+
+
+SPLIT_DEPTH = 6
+
+
+def _job(args):
+    kind, spec, limit, seed = args[:4]
+    base = lib.scratch_dir("c07")
+    try:
+        if kind == "all":
+            runs, complete = explore_all(spec, base, limit)
+        elif kind == "roots":        # first stage of a split exhaustive exploration: all distinct prefixes of length SPLIT_DEPTH
+            runs, complete = explore_all(spec, base, limit, branch_until=SPLIT_DEPTH)
+        elif kind == "subtree":      # second stage: everything below one prefix
+            runs, complete = explore_all(spec, base, limit, root=args[4], branch_from=SPLIT_DEPTH)
+        else:
+            runs, complete = explore_random(spec, base, limit, seed), False
+        return spec, runs, complete
+    finally:
+        global _TEMPLATES
+        _TEMPLATES = {}
+        lib.rm_rf(base)
+
+
+def run_jobs(jobs) -> list:
+    """jobs: (kind, spec, limit, seed, family).  'split' jobs are explored exhaustively in two parallel stages.
+    Returns [(family, kind, spec, runs, complete)]."""
+    out = []
+    with ProcessPoolExecutor(max_workers=min(lib.NPROC, 16)) as ex:
+        plain = [j for j in jobs if j[0] != "split"]
+        split = [j for j in jobs if j[0] == "split"]
+        f_plain = [ex.submit(_job, (j[0], j[1], j[2], j[3])) for j in plain]
+        f_roots = [ex.submit(_job, ("roots", j[1], 5000, 0)) for j in split]
+        subs = []
+        for j, f in zip(split, f_roots):
+            spec, runs, _ = f.result()
+            roots = sorted({tuple(t[0] for t in r["trace"][:SPLIT_DEPTH]) for r in runs})
+            subs.append((j, [ex.submit(_job, ("subtree", j[1], j[2], 0, list(rt))) for rt in roots]))
+        for j, f in zip(plain, f_plain):
+            spec, runs, complete = f.result()
+            out.append((j[4], j[0], spec, runs, complete))
+        for j, fs in subs:
+            runs, complete = [], True
+            for f in fs:
+                _, rs, c = f.result()
+                runs += rs
+                complete = complete and c
+            out.append((j[4], "all", j[1], runs, complete))
+    return out
+
+
+# ---------------------------------------------------------------------------------------------------------
+# implementation-side monitors: the property evaluated on the real trace
+# ---------------------------------------------------------------------------------------------------------
+
+def _expected_view(spec: dict, order: list[int]) -> dict:
+    status = spec["status0"]
+    log: list[int] = []
+    tasks = [[tid, code] for tid, code in spec["tasks"]]
+    for i in order:
+        m = spec["workers"][i]["mod"]
+        if m["status"] is not None:
+            status = m["status"]
+        log = log + [m["tag"]]
+        setm = {}
+        for tid, code in m["set"]:
+            setm.setdefault(tid, code)
+        tasks = [[tid, setm.get(tid, code)] for tid, code in tasks]
+        for tid, code in m["new"]:
+            if not any(t[0] == tid for t in tasks):
+                tasks.append([tid, code])
+    return {"status": status, "log": log, "tasks": sorted(tasks)}
+
+
+def monitors(spec: dict, r: dict) -> list[tuple[str, str]]:
+    """(signature, description) for every way the real run contradicts the property."""
+    bad: list[tuple[str, str]] = []
+    if r.get("error"):
+        bad.append(("scheduler-error", r["error"]))
+        return bad
+    for i, c in enumerate(r["crash"]):
+        if c is not None and r["results"][i][-1:] != ["other"]:
+            bad.append(("worker-crash", f"worker {i}: {c}"))
+    if bad:
+        return bad
+    trace, hist, res, bases = r["trace"], r["history"], r["results"], r["bases"]
+    n = len(spec["workers"])
+    # M1: of the saves based on one version at most one succeeds
+    by_ver: dict[int, list[int]] = {}
+    for i in range(n):
+        for a, out in enumerate(res[i]):
+            if out == "ok" and a < len(bases[i]):
+                by_ver.setdefault(bases[i][a], []).append(i)
+    for v, ws in by_ver.items():
+        if len(ws) > 1:
+            bad.append(("double-success", f"writers {ws} all saved successfully on top of version {v}"))
+    # M3/M4: the committed row changes only at the COMMIT of an attempt that then reports success, by exactly one version
+    attempt_no = [0] * n
+    commit_order: list[int] = []
+    for k, (i, kind) in enumerate(trace):
+        before, after = hist[k], hist[k + 1]
+        if kind == "S":
+            a = attempt_no[i]
+            if a < len(bases[i]) and bases[i][a] != before["ver"]:
+                bad.append(("stale-retry", f"writer {i} attempt {a} works on version {bases[i][a]} but the committed "
+                                           f"version at its read was {before['ver']}"))
+        if after != before:
+            if after["ver"] < before["ver"] or any(
+                    ta[1] < tb[1] for ta in after["tasks"] for tb in before["tasks"] if ta[0] == tb[0]):
+                bad.append(("version-decreased", f"step {k} {kind} of writer {i}: version went backwards"))
+            a = attempt_no[i]
+            ok_attempt = a < len(res[i]) and res[i][a] == "ok"
+            if kind != "C" or not ok_attempt:
+                bad.append(("failed-write-visible", f"step {k} ({kind}) of writer {i} changed the committed row although "
+                                                    f"that save did not report success: {before} -> {after}"))
+            elif after["ver"] != before["ver"] + 1:
+                bad.append(("version-not-bumped", f"commit of writer {i} moved the version {before['ver']} -> {after['ver']}"))
+            if kind == "C" and after["ver"] != before["ver"]:
+                commit_order.append(i)
+        elif kind == "C" and attempt_no[i] < len(res[i]) and res[i][attempt_no[i]] == "ok":
+            bad.append(("success-not-committed", f"writer {i} reported success but its commit changed nothing"))
+        if kind == "U" and attempt_no[i] < len(res[i]) and res[i][attempt_no[i]] != "ok":
+            attempt_no[i] += 1
+        if kind == "C":
+            attempt_no[i] += 1
+    # M2: no lost update — the final row is the composition of the successful modifications in commit order
+    succeeded = [i for i in range(n) if "ok" in res[i]]
+    final = r["final"]
+    if sorted(commit_order) != sorted(succeeded):
+        bad.append(("success-set-mismatch", f"writers reporting success {succeeded}, writers whose commit changed the row {commit_order}"))
+    exp = _expected_view(spec, commit_order)
+    got = {"status": final["status"], "log": final["log"], "tasks": sorted([t[0], t[2]] for t in final["tasks"])}
+    if got != exp:
+        lost = [spec["workers"][i]["mod"]["tag"] for i in succeeded if spec["workers"][i]["mod"]["tag"] not in final["log"]]
+        sig = "lost-update" if lost or got["tasks"] != exp["tasks"] or got["status"] != exp["status"] else "phantom-update"
+        bad.append((sig, f"final row {got} differs from the successful modifications applied in commit order "
+                         f"{commit_order}: {exp} (lost tags {lost})"))
+    if final["ver"] != len(commit_order):
+        bad.append(("version-count", f"final version {final['ver']} after {len(commit_order)} successful saves"))
+    for i in range(n):
+        if not res[i] or (res[i][-1] == "conc" and len(res[i]) < spec["workers"][i]["tries"]):
+            bad.append(("retry-budget", f"writer {i} stopped after {res[i]} with {spec['workers'][i]['tries']} attempts allowed"))
+    if r["open_txn_left"]:
+        bad.append(("open-transaction-left", f"connections of writers {r['open_txn_left']} still in a transaction"))
+    if not r["other_unchanged"]:
+        bad.append(("bystander-changed", "another stage's row or task changed"))
+    r["commit_order"] = commit_order
+    return bad
+
+
+# ---------------------------------------------------------------------------------------------------------
+# printing a real run as an Occ.case
+# ---------------------------------------------------------------------------------------------------------
+_RES = {"ok": "Ok", "conc": "ConcErr", "other": "OtherErr"}
+_PC = {"S": "AtS", "T": "AtT", "U": "AtU", "C": "AtC", "E": "AtE"}
+
+
+def _cq_pairs(ps):
+    return cq_list("(%s, %s)" % (cq_Z(a), cq_Z(b)) for a, b in ps)
+
+
+def case_term(spec: dict, r: dict) -> str:
+    stages = "[mk_srow 1 0 %s []; mk_srow 2 0 0 []]" % cq_Z(spec["status0"])
+    tasks = cq_list(["mk_trow %s 1 0 %s" % (cq_Z(t), cq_Z(c)) for t, c in spec["tasks"]] + ["mk_trow 900000 2 0 0"])
+    progs = []
+    for w in spec["workers"]:
+        ph = w["phase"]
+        phs = "NoPhase" if ph[0] == "none" else ("PhaseSnap" if ph[0] == "snap" else "(PhaseFixed %s)" % cq_Z(ph[1]))
+        m = w["mod"]
+        mod = "(mk_mod %s %s %s %s)" % ("None" if m["status"] is None else "(Some %s)" % cq_Z(m["status"]), cq_Z(m["tag"]),
+                                        _cq_pairs(m["set"]), _cq_pairs(m["new"]))
+        progs.append("mk_prog %s %s %s %s %s" % ("Plain" if w["variant"] == "plain" else "Txn", phs, mod, cq_nat(w["tries"]),
+                                                 "true" if w.get("poison") else "false"))
+    sched = cq_list("(%s, %s)" % (cq_nat(i), _PC[k]) for i, k in r["trace"])
+    f = r["final"]
+    obs = "(mk_obs %s %s %s %s %s %s)" % (
+        cq_list(cq_list(_RES[x] for x in rs) for rs in r["results"]), cq_Z(f["ver"]), cq_Z(f["status"]),
+        cq_list(cq_Z(x) for x in f["log"]), cq_list("mk_tsnap %s %s %s" % (cq_Z(a), cq_Z(b), cq_Z(c)) for a, b, c in f["tasks"]),
+        cq_list(cq_nat(i) for i in r.get("commit_order", [])))
+    return "mk_case 1 (mk_db %s %s) %s %s %s" % (stages, tasks, cq_list(progs), sched, obs)
+
+
+# ---------------------------------------------------------------------------------------------------------
+# generator
+# ---------------------------------------------------------------------------------------------------------
+API = [("plain", ["none"]), ("plain", ["snap"]), ("txn", ["none"]), ("txn", ["snap"])]
+
+
+def _mod(rng, i: int, tasks, rich: bool) -> dict:
+    ids = [t for t, _ in tasks]
+    m = {"status": None, "tag": 100 * (i + 1) + rng.randrange(10), "set": [], "new": []}
+    if rich:
+        if rng.random() < 0.5:
+            m["status"] = rng.choice([1, 2, 3, 5, 6])
+        for t in ids:
+            if rng.random() < 0.5:
+                m["set"].append([t, rng.randrange(0, 8)])
+        if rng.random() < 0.2 and ids:
+            m["set"].append([rng.choice(ids), rng.randrange(0, 8)])          # duplicate binding: first wins
+        if rng.random() < 0.5:
+            m["new"].append([50 + (rng.randrange(3) if rng.random() < 0.4 else 10 * (i + 1)), rng.randrange(0, 8)])
+    return m
+
+
+def gen_specs(ctx) -> list[tuple[str, dict, int, int, str]]:
+    """(kind, spec, limit, seed, family)"""
+    rng = ctx.rng
+    thorough = ctx.tier == "thorough"
+    jobs = []
+    base_tasks = [[1, 0], [2, 1]]
+    # family A: every ordered pair of the 4 public API variants, 2 writers, one attempt each — ALL interleavings
+    for a in API:
+        for b in API:
+            spec = {"tasks": base_tasks, "status0": 1, "workers": [
+                {"variant": a[0], "phase": a[1], "mod": _mod(rng, 0, base_tasks, True), "tries": 1},
+                {"variant": b[0], "phase": b[1], "mod": _mod(rng, 1, base_tasks, True), "tries": 1}]}
+            jobs.append(("all", spec, 4000, 0, "pair-1try-all"))
+    # family B: the loser retries on fresh data (2 attempts; 3 and the engine's real budgets in thorough) — ALL interleavings
+    combos = [(a, b) for a in API for b in API]
+    pick = combos if thorough else [combos[k] for k in (0, 3, 6, 9, 10, 15)] + [rng.choice(combos) for _ in range(2)]
+    for a, b in pick:
+        spec = {"tasks": base_tasks, "status0": 1, "workers": [
+            {"variant": a[0], "phase": a[1], "mod": _mod(rng, 0, base_tasks, True), "tries": 2},
+            {"variant": b[0], "phase": b[1], "mod": _mod(rng, 1, base_tasks, True), "tries": 2}]}
+        jobs.append(("all", spec, 20000 if thorough else 6000, 0, "pair-2tries-all"))
+    # named corner cases
+    corner = [
+        ("phase-mismatch", {"tasks": base_tasks, "status0": 1, "workers": [
+            {"variant": "plain", "phase": ["fixed", 4], "mod": _mod(rng, 0, base_tasks, False), "tries": 2},
+            {"variant": "txn", "phase": ["fixed", 1], "mod": _mod(rng, 1, base_tasks, False), "tries": 2}]}),
+        ("status-flip-vs-phase", {"tasks": base_tasks, "status0": 1, "workers": [
+            {"variant": "txn", "phase": ["none"], "mod": {"status": 4, "tag": 101, "set": [], "new": []}, "tries": 1},
+            {"variant": "plain", "phase": ["fixed", 1], "mod": {"status": None, "tag": 202, "set": [[1, 3]], "new": []}, "tries": 2}]}),
+        ("same-new-task", {"tasks": base_tasks, "status0": 1, "workers": [
+            {"variant": "plain", "phase": ["none"], "mod": {"status": None, "tag": 101, "set": [], "new": [[60, 1]]}, "tries": 2},
+            {"variant": "txn", "phase": ["none"], "mod": {"status": None, "tag": 202, "set": [[60, 5]], "new": [[60, 2]]}, "tries": 2}]}),
+        ("no-tasks", {"tasks": [], "status0": 0, "workers": [
+            {"variant": "plain", "phase": ["snap"], "mod": {"status": 1, "tag": 101, "set": [], "new": [[70, 0]]}, "tries": 2},
+            {"variant": "plain", "phase": ["snap"], "mod": {"status": 1, "tag": 202, "set": [], "new": [[71, 0]]}, "tries": 2}]}),
+        ("join-tracking-budget", {"tasks": base_tasks, "status0": 0, "workers": [
+            {"variant": "plain", "phase": ["snap"], "mod": {"status": None, "tag": 101, "set": [], "new": []}, "tries": 5},
+            {"variant": "plain", "phase": ["snap"], "mod": {"status": None, "tag": 202, "set": [], "new": []}, "tries": 5}]}),
+    ]
+    for name, spec in corner:
+        jobs.append(("all", spec, 20000 if thorough else 3000, 0, "corner:" + name))
+    # poisoned snapshots (current stage version, stale task version — not obtainable from retrieve_stage):
+    #  inside store.transaction() the task conflict must roll the whole save back (monitors on);
+    #  the plain store_stage leaves the stage UPDATE pending (non-guarantee C1; correspondence only, monitors off)
+    for variant, fam in (("txn", "poison-txn"), ("plain", "nonguarantee:poison-plain")):
+        for other in (API[0], API[3]):
+            spec = {"tasks": base_tasks, "status0": 1, "workers": [
+                {"variant": variant, "phase": ["none"], "mod": _mod(rng, 0, base_tasks, False) | {"status": 3},
+                 "tries": 2 if variant == "txn" else 1, "poison": True},
+                {"variant": other[0], "phase": other[1], "mod": _mod(rng, 1, base_tasks, True), "tries": 2}]}
+            jobs.append(("all", spec, 3000, 0, fam))
+    # family C: three writers
+    n3 = 40 if thorough else 12
+    for k in range(n3):
+        tasks = [[t + 1, rng.randrange(0, 4)] for t in range(rng.randrange(0, 4))]
+        ws = []
+        for i in range(3):
+            a = rng.choice(API)
+            ph = a[1] if rng.random() < 0.85 else ["fixed", rng.choice([1, 2])]
+            ws.append({"variant": a[0], "phase": ph, "mod": _mod(rng, i, tasks, True),
+                       "tries": rng.choice([1, 2, 2, 3, 4])})
+        spec = {"tasks": tasks, "status0": rng.choice([0, 1, 2]), "workers": ws}
+        jobs.append(("random", spec, 120 if thorough else 30, rng.randrange(1 << 30), "three-random"))
+    # family D: three writers, ALL interleavings (split over the process pool)
+    triples = [(API[0], API[3], API[1])] + ([(API[2], API[2], API[0])] + [tuple(rng.choice(API) for _ in range(3)) for _ in range(2)] if thorough else [])
+    for tr in triples:
+        spec = {"tasks": base_tasks, "status0": 1, "workers": [
+            {"variant": v[0], "phase": v[1], "mod": _mod(rng, i, base_tasks, True), "tries": 1} for i, v in enumerate(tr)]}
+        jobs.append(("split", spec, 100000, 0, "three-1try-all"))
+    if thorough:
+        for tr in triples[:2]:
+            spec = {"tasks": base_tasks, "status0": 1, "workers": [
+                {"variant": v[0], "phase": v[1], "mod": _mod(rng, i, base_tasks, True), "tries": 2} for i, v in enumerate(tr)]}
+            jobs.append(("split", spec, 100000, 0, "three-2tries-all"))
+    return jobs
+
+
+# ---------------------------------------------------------------------------------------------------------
+# run / search / replay
+# ---------------------------------------------------------------------------------------------------------
+REQ = "From Stab.model Require Import Occ."
+
+
+def _retry_policy_calls() -> tuple[int, int]:
+    """How many times retry_on_concurrency_error really calls a body that always conflicts (vs. Occ.handler_tries)."""
+    lib.ensure_repo_on_path()
+    import resilient_circuit.retry as rr
+    from stabilize.errors import ConcurrencyError
+    from stabilize.handlers.base import StabilizeHandler
+    from stabilize.resilience.config import HandlerConfig
+
+    class H(StabilizeHandler):
+        message_type = None
+
+        def handle(self, message):
+            pass
+
+    cfg = HandlerConfig()
+    h = H(queue=None, repository=None, handler_config=cfg)
+    calls = {"n": 0}
+
+    def body():
+        calls["n"] += 1
+        raise ConcurrencyError("always")
+
+    import logging
+    lg = logging.getLogger("stabilize.handlers.base")
+    lvl = lg.level
+    lg.setLevel(logging.CRITICAL)
+    saved = rr.sleep
+    rr.sleep = lambda s: None
+    try:
+        try:
+            h.retry_on_concurrency_error(body, "c07 probe")
+            raised = False
+        except ConcurrencyError:
+            raised = True
+    finally:
+        rr.sleep = saved
+        lg.setLevel(lvl)
+    return calls["n"] if raised else -calls["n"], cfg.concurrency_max_retries
+
+
+def _violation(spec, r, sig, what) -> Violation:
+    return Violation(what=what, signature=sig,
+                     replay={"kind": "schedule", "spec": spec, "choices": [t[0] for t in r.get("trace", [])],
+                             "trace": r.get("trace"), "results": r.get("results"), "final": r.get("final"),
+                             "how": "harness.props.c07.replay: real threads under the statement scheduler follow `choices`"})
+
+
+def run(ctx) -> RunResult:
+    res = RunResult(rule="a run is non-trivial when at least one save failed with ConcurrencyError (a real conflict was "
+                         "exercised); distinct = distinct (spec, executed schedule) pairs")
+    jobs = gen_specs(ctx)
+    t0 = time.time()
+    results = run_jobs(jobs)
+    t_real = time.time() - t0
+    cases, owners = [], []
+    dist: dict = {"families": {}, "schedule_len": {}, "outcomes": {}, "variants": {}, "exhaustive_specs": 0, "truncated_specs": 0}
+    seen = set()
+    nontrivial = 0
+    c1_seen = 0
+    for fam, kind, spec, runs, complete in results:
+        dist["families"][fam] = dist["families"].get(fam, 0) + len(runs)
+        if kind == "all":
+            dist["exhaustive_specs" if complete else "truncated_specs"] += 1
+        for w in spec["workers"]:
+            key = w["variant"] + "/" + w["phase"][0]
+            dist["variants"][key] = dist["variants"].get(key, 0) + len(runs)
+        for r in runs:
+            bad = monitors(spec, r)
+            if fam.startswith("nonguarantee:"):
+                # documented non-guarantee (coq/props/C07.v, Part C1): only scheduler/crash problems count here
+                if any(sig == "failed-write-visible" for sig, _ in bad):
+                    c1_seen += 1
+                bad = [b for b in bad if b[0] in ("scheduler-error", "worker-crash")]
+            for sig, what in bad:
+                res.violations.append(_violation(spec, r, sig, what))
+            if any(sig in ("scheduler-error", "worker-crash") for sig, _ in bad):
+                res.disagreements.append({"what": "real run could not be driven", "detail": bad[0][1][:300], "spec": spec})
+                continue
+            key = json.dumps([spec, r["trace"]], sort_keys=True)
+            if key in seen:
+                continue
+            seen.add(key)
+            L = len(r["trace"])
+            dist["schedule_len"][L] = dist["schedule_len"].get(L, 0) + 1
+            oc = "/".join(sorted(",".join(x) for x in r["results"]))
+            dist["outcomes"][oc] = dist["outcomes"].get(oc, 0) + 1
+            if any("conc" in x for x in r["results"]):
+                nontrivial += 1
+            cases.append(case_term(spec, r))
+            owners.append((spec, r))
+            if len(res.samples) < 4 and any("conc" in x for x in r["results"]):
+                res.samples.append({"workers": [[w["variant"], w["phase"], w["tries"]] for w in spec["workers"]],
+                                    "schedule": "".join("%d%s " % (i, k) for i, k in r["trace"]).strip(),
+                                    "results": r["results"], "final": r["final"]})
+    t1 = time.time()
+    failing, err = lib.coq_failing_indices(REQ, "check_case", "case", cases, "c07_cases", shard=150 if len(cases) < 4000 else 500, timeout=900)
+    if err:
+        res.disagreements.append({"what": "model evaluation failed", "detail": err[:800]})
+    for i in failing[:10]:
+        spec, r = owners[i]
+        res.disagreements.append({"what": "Occ.run and the real threads differ on the same schedule", "spec": spec,
+                                  "schedule": r["trace"], "real_results": r["results"], "real_final": r["final"]})
+    # the retry budget of retry_on_concurrency_error vs. Occ.handler_tries, and the model's two constants
+    calls, mr = _retry_policy_calls()
+    rc, out = lib.coq_run(REQ + "\nEval vm_compute in (handler_tries, join_tracking_tries).\n", "c07_tries")
+    import re as _re
+    m = _re.search(r"=\s*\((\d+)%?n?a?t?,\s*(\d+)", out)
+    if rc != 0 or not m:
+        res.disagreements.append({"what": "could not evaluate Occ.handler_tries", "detail": out[-300:]})
+    elif int(m.group(1)) != calls:
+        res.disagreements.append({"what": "retry_on_concurrency_error attempts differ from the model",
+                                  "real_calls": calls, "config_max_retries": mr, "model": int(m.group(1))})
+        if calls <= 0:
+            res.violations.append(Violation(
+                what="retry_on_concurrency_error does not raise ConcurrencyError after its budget is exhausted",
+                signature="retry-swallows", replay={"kind": "retry-probe", "calls": calls}))
+    res.evaluations = len(cases) + 1
+    res.traces_validated = len(cases)
+    res.distinct_nontrivial = nontrivial
+    res.exhaustive = dist["truncated_specs"] == 0
+    dist["schedule_len"] = dict(sorted(dist["schedule_len"].items()))
+    res.distribution = dist
+    res.notes.append("real runs %d in %.1fs (16 processes), Coq re-computation of %d cases in %.1fs; "
+                     "retry_on_concurrency_error calls=%d (max_retries=%d)" % (
+                         sum(len(x[3]) for x in results), t_real, len(cases), time.time() - t1, calls, mr))
+    res.extra["non_guarantee_C1_reproduced_on_real_code"] = c1_seen
+    res.notes.append("non-guarantee C1 (plain store_stage with a corrupted in-memory task version publishes its stage UPDATE at the "
+                     "thread's next commit) reproduced on the real code in %d runs; model and code agree on all of them" % c1_seen)
+    if dist["truncated_specs"]:
+        res.notes.append("%d exhaustive explorations were cut at their run limit" % dist["truncated_specs"])
+    return res
+
+
+def search(ctx, broken) -> list:
+    """Proof or correspondence broke without a monitor firing: look harder (more schedules, more specs)."""
+    found: list = []
+    import random
+    rng = random.Random(ctx.seed * 7919 + 7)
+
+    class C:
+        pass
+    c2 = C()
+    c2.rng, c2.tier, c2.seed = rng, "thorough", ctx.seed
+    jobs = [j for j in gen_specs(c2) if j[0] != "split"][:80]
+    for fam, kind, spec, runs, _ in run_jobs([(j[0], j[1], min(j[2], 3000), j[3], j[4]) for j in jobs]):
+        for r in runs:
+            for sig, what in monitors(spec, r):
+                found.append(_violation(spec, r, sig, what))
+                if len(found) >= 5:
+                    return found
+    return found
+
+
+def replay(obj) -> bool:
+    r = obj["replay"]
+    if r.get("kind") == "retry-probe":
+        calls, _ = _retry_policy_calls()
+        return calls > 0
+    base = lib.scratch_dir("c07r")
+    try:
+        out = real_run(r["spec"], _replay_chooser(r["choices"]), base)
+        bad = monitors(r["spec"], out)
+        for sig, what in bad:
+            print("  ", sig, ":", what[:300])
+        return not bad
+    finally:
+        lib.rm_rf(base)
